@@ -12,6 +12,7 @@ import z3
 
 from . import common, e3
 from .common import log
+from . import probes
 from .mir import engine as mir_engine, exec as mx
 
 PID = "C14"
@@ -58,7 +59,7 @@ def check_is_match(eng, obl, out):
         if any(e[0] == "Path::get_ident" and "Attribute::path(sym:attr)" in e[1][0] for e in r.events):
             obl.discharged += 1
         else:
-            out.violation("is_match-ident", "-", "is_match does not decide on `attr.path().get_ident()` (a multi-segment foreign attribute could be taken for a helper)")
+            probes.structural(out, "is_match-ident", "is_match does not decide on `attr.path().get_ident()` (a multi-segment foreign attribute could be taken for a helper)", 'C14.foreign')
     e3.coverage_check(ex, obl, "is_match", res)
     obl.samples.append({"function": "HelperAttributeKinds::is_match", "paths": len(res),
                         "obligation": "path_condition AND (returned value != flag expression of the documentation table for the matched attribute name) is UNSAT"})
@@ -170,7 +171,7 @@ def check_entry(eng, obl, out, which):
         if "opaque" not in ex.summ(mx.State(), r.value) or core.split("::")[-1] not in ex.summ(mx.State(), r.value):
             problems.append("the returned value is not the builder's result")
         if problems:
-            out.violation("entry|%s|%s" % (which, problems[0]), "-", "%s: %s (events %s)" % (tag, "; ".join(problems), [(e[0], e[1][0]) for e in evs][:8]))
+            probes.structural(out, "entry|%s|%s" % (which, problems[0]), "%s: %s (events %s)" % (tag, "; ".join(problems), [(e[0], e[1][0]) for e in evs][:8]), ["C14.strip", "C14.strip-on-error", "C14.strip-on-core-error"])
         else:
             obl.discharged += 1
     # the filter must not depend on the builder's result: there is no fork on it
@@ -178,7 +179,7 @@ def check_entry(eng, obl, out, which):
     if res and not any("disc-opaque" in str(c) and core in str(c) for r in res for c in r.pc):
         obl.discharged += 1
     else:
-        out.violation("entry|%s|result-dependent" % which, "-", "%s branches on the builder's result before filtering the attributes" % tag)
+        probes.structural(out, "entry|%s|result-dependent" % which, "%s branches on the builder's result before filtering the attributes" % tag, ['C14.strip', 'C14.strip-on-error', 'C14.strip-on-core-error'])
     obl.samples.append({"function": tag, "paths": len(res), "example_events": [(e[0], e[1][0]) for e in res[-1].events][:8] if res else []})
 
 
@@ -214,13 +215,13 @@ def check_lib_entries(eng, obl, out):
         if item_pos and gen_pos and item_pos[0] < gen_pos[0] and conv and ok_result:
             obl.discharged += 1
         else:
-            out.violation("lib-build|%s" % called[0], "-", "lib.rs `build` does not emit the parsed item followed by the generated tokens / the builder's error as compile_error "
-                          "(item first: %s, error converted: %s, result Ok: %s)" % (bool(item_pos and gen_pos and item_pos[0] < gen_pos[0]), conv, ok_result))
+            probes.structural(out, "lib-build|%s" % called[0], "lib.rs `build` does not emit the parsed item followed by the generated tokens / the builder's error as compile_error "
+                          "(item first: %s, error converted: %s, result Ok: %s)" % (bool(item_pos and gen_pos and item_pos[0] < gen_pos[0]), conv, ok_result), ['C14.lib', 'C14.strip-on-core-error'])
     obl.total += 1
     if seen_builders == builders:
         obl.discharged += 1
     else:
-        out.violation("lib-build|dispatch", "-", "lib.rs `build` does not dispatch struct / enum / impl items to their builders (%s)" % sorted(seen_builders))
+        probes.structural(out, "lib-build|dispatch", "lib.rs `build` does not dispatch struct / enum / impl items to their builders (%s)" % sorted(seen_builders), ['C14.lib', 'C14.strip-on-core-error'])
     ex = eng.executor(opaque_local={"build"})
     ex.trace = _All()
     fn = eng.find("derive_ex")
@@ -251,13 +252,13 @@ def check_lib_entries(eng, obl, out):
     if good:
         obl.discharged += 1
     else:
-        out.violation("lib-derive_ex_derive|output", "-", "the derive entry point returns something else than the builder's tokens / the builder's error: %s" % (
-            [(r.kind, [e[0].split("::")[-1] for e in r.events]) for r in res2],))
+        probes.structural(out, "lib-derive_ex_derive|output", "the derive entry point returns something else than the builder's tokens / the builder's error: %s" % (
+            [(r.kind, [e[0].split("::")[-1] for e in r.events]) for r in res2],), ['C14.lib', 'C14.strip-on-core-error'])
     if ok:
         obl.discharged += 1
     else:
-        out.violation("lib-derive_ex|error-path", "-", "the attribute entry point does not return the original item followed by the error when `build` fails: %s" % (
-            [(r.kind, [e[0].split("::")[-1] for e in r.events]) for r in res],))
+        probes.structural(out, "lib-derive_ex|error-path", "the attribute entry point does not return the original item followed by the error when `build` fails: %s" % (
+            [(r.kind, [e[0].split("::")[-1] for e in r.events]) for r in res],), ['C14.lib', 'C14.strip-on-core-error'])
 
 
 def replay_failures(obl, out):
@@ -275,7 +276,7 @@ def replay_failures(obl, out):
             traits = [t for t, fl in (("Default", "default"), ("Debug", "debug"), ("Ord", "ord"), ("PartialOrd", "partial_ord"), ("Eq", "eq"),
                                       ("PartialEq", "partial_eq"), ("Hash", "hash")) if flags[fl]]
             if not traits or name in (None, "derive_ex"):
-                out.violation("is_match|%s" % name, "-", "is_match(%s) disagrees with the documentation table for derived flags %s" % (name, flags))
+                probes.structural(out, "is_match|%s" % name, "is_match(%s) disagrees with the documentation table for derived flags %s" % (name, flags), 'C14.kinds')
                 continue
             arg = {"default": "_", "debug": "ignore"}.get(name, "bound(..)")
             item = "struct X { #[%s(%s)] f0: u8 }" % (name, arg)
@@ -292,7 +293,7 @@ def replay_failures(obl, out):
             else:
                 out.broken.append("UNCONFIRMED counterexample for %s" % label)
         else:
-            out.violation("extend", "-", "HelperAttributeKinds::extend does not raise exactly the flags of the derived traits (%s)" % label)
+            probes.structural(out, "extend", "HelperAttributeKinds::extend does not raise exactly the flags of the derived traits (%s)" % label, 'C14.kinds')
 
 
 def replay_remove(out, label, model, info):
